@@ -33,7 +33,7 @@ func main() {
 			"and the run finished; distinct by configuration",
 		Assumptions: []string{"every stack has the address translator on top (it page-aligns addresses); accesses stay inside one cache line and therefore one page; distinct (process, page) pairs map to distinct frames"},
 		Plan: func(tier string, seed int64) []kit.Batch {
-			nb, n, nreq := 16, 5, 300
+			nb, n, nreq := 16, 12, 300
 			if tier == "thorough" {
 				nb, n, nreq = 48, 80, 1200
 			}
